@@ -4,7 +4,7 @@
    (family "pipe").  Each stage event carries the facts its properties talk about; the guards below
    ARE the properties, evaluated by TLC on what the real code produced.  Geometry is in rounded
    pixels (TLC integers).  A stage that panics or hangs is logged as "panic"/"timeout".
-     C03 C04 fmt | C07 C08 compile | C17 C18 C19 C20 C21 C22 C23 C24 layout | C26 serde *)
+     C03 C04 fmt | C07 C08 C09 compile | C17 C18 C19 C20 C21 C22 C23 C24 layout | C26 serde *)
 EXTENDS Integers, Sequences, FiniteSets, Json, TLC
 VARIABLES l, tid, stage
 Trace == ndJsonDeserialize("trace.ndjson")
@@ -17,6 +17,28 @@ Tol == 2
 Compile(e) ==
   /\ Chk(e.ok = 1 \/ e.errPositioned = 1, "C07", "compile-error-without-source-position", e.msg)
   /\ Chk(e.ms <= 3000 + e.bytes, "C07", "compile-time-not-proportional-to-input", <<e.ms, e.bytes, e.rglobs>>)
+\* ------------------------------------------------------------------ well-formed boards (C09)
+\* The object hierarchy of a board as the graph's own structures give it: the object list, parent pointers, child lists
+\* and child maps.  It is a tree rooted in the board's root, every object is listed once and filed once by its parent
+\* under its folded ID, and both ends of a connection are listed objects.
+Ids(b) == [i \in 1..Len(b.objs) |-> b.objs[i].id]
+Count(seq, x) == Cardinality({k \in 1..Len(seq) : seq[k] = x})
+WFBoard(b) ==
+  LET n == Len(b.objs) IN
+  /\ Chk(\A i, j \in 1..n : i # j => b.objs[i].id # b.objs[j].id, "C09", "object-listed-twice", <<b.path, Ids(b)>>)
+  /\ \A i \in 1..n : LET o == b.objs[i] IN
+       /\ Chk(o.reachesRoot = 1 /\ o.sameGraph = 1, "C09", "object-not-reachable-from-the-root-of-its-board", <<b.path, o.id>>)
+       /\ Chk(o.parentIsRoot = 1 \/ \E j \in 1..n : b.objs[j].id = o.parent, "C09", "parent-is-not-an-object-of-the-board", <<b.path, o.id, o.parent>>)
+       /\ Chk(o.filed = 1, "C09", "object-not-filed-under-its-id-by-its-parent", <<b.path, o.id>>)
+       /\ Chk(IF o.parentIsRoot = 1 THEN Count(b.rootKids, o.id) = 1
+              ELSE \A j \in 1..n : b.objs[j].id = o.parent => Count(b.objs[j].kids, o.id) = 1, "C09", "parent-does-not-list-the-object-exactly-once", <<b.path, o.id>>)
+       /\ Chk(\A k \in 1..Len(o.kids) : \E j \in 1..n : b.objs[j].id = o.kids[k] /\ b.objs[j].parent = o.id /\ b.objs[j].parentIsRoot = 0, "C09", "child-of-an-object-is-not-an-object-of-the-board", <<b.path, o.id, o.kids>>)
+       /\ Chk(o.mapKids = Len(o.kids), "C09", "child-map-and-child-list-differ-in-size", <<b.path, o.id, o.mapKids, Len(o.kids)>>)
+  /\ Chk(\A k \in 1..Len(b.rootKids) : \E j \in 1..n : b.objs[j].id = b.rootKids[k] /\ b.objs[j].parentIsRoot = 1, "C09", "child-of-the-root-is-not-an-object-of-the-board", <<b.path, b.rootKids>>)
+  /\ Chk(b.rootMapKids = Len(b.rootKids), "C09", "child-map-and-child-list-differ-in-size", <<b.path, "root", b.rootMapKids, Len(b.rootKids)>>)
+  /\ \A k \in 1..Len(b.edges) : Chk(b.edges[k].srcListed = 1 /\ b.edges[k].dstListed = 1, "C09", "connection-end-is-not-an-object-of-the-board", <<b.path, b.edges[k].src, b.edges[k].dst>>)
+WF(e) == \A k \in 1..Len(e.boards) : WFBoard(e.boards[k])
+
 Recompile(e) ==
   Chk(\A k \in 1..Len(e.digests) : e.digests[k] = e.first, "C08", "same-input-compiled-to-different-diagrams", Cardinality({e.digests[k] : k \in 1..Len(e.digests)}))
 Fmt(e) ==
@@ -228,6 +250,7 @@ Next ==
        CASE e.ev = "reset"     -> tid' = e.tid /\ stage' = "none"
          [] e.ev = "gen"       -> stage' = "gen" /\ UNCHANGED tid
          [] e.ev = "compile"   -> Compile(e) /\ stage' = "compile" /\ UNCHANGED tid
+         [] e.ev = "wf"        -> WF(e) /\ UNCHANGED <<tid, stage>>
          [] e.ev = "recompile" -> Recompile(e) /\ UNCHANGED <<tid, stage>>
          [] e.ev = "fmt"       -> Fmt(e) /\ UNCHANGED <<tid, stage>>
          [] e.ev = "layout"    -> Layout(e) /\ Special(e) /\ stage' = "layout" /\ UNCHANGED tid
